@@ -12,8 +12,11 @@ intro = '''(* ---- Tie to the source by translation (Gen/GeneratedTr.v, regenera
    which every theorem above speaks - are the interpretation of these terms. *)
 '''
 out = "Section GenTie.\nLocal Open Scope Z_scope.\n" + intro
-for lem, thm, comment in items:
-    st = re.search(r"Lemma %s\s*:(.*?)\nProof\." % lem, src, re.S).group(1).strip()
+for it in items:
+    lem, thm, comment = it[0], it[1], it[2]
+    st = re.search(r"Lemma %s\s*:(.*?)\n\s*Proof\." % lem, src, re.S).group(1).strip()
+    if len(it) > 3:  # section variables of the proof file, to be quantified in the exported statement
+        st = it[3] + "\n  " + st
     out += "(* %s *)\nTheorem %s_%s :\n  %s\nProof. exact %s. Qed.\nPrint Assumptions %s_%s.\n\n" % (comment, prop, thm, st, lem, prop, thm)
 out += "End GenTie.\n\n"
 pf = '/verif/coq/Props/%s.v' % prop
